@@ -169,6 +169,7 @@ impl Chain {
     }
 }
 
+#[derive(Clone)]
 pub struct Keys {
     pub usk_a: UnifiedSpendingKey,
     pub usk_b: UnifiedSpendingKey,
@@ -178,6 +179,7 @@ pub struct Keys {
     pub ufvk_f: UnifiedFullViewingKey,
 }
 
+#[derive(Clone)]
 pub struct Universe {
     pub network: LocalNetwork,
     pub keys: Keys,
